@@ -165,3 +165,14 @@ def load_known_findings():
     if not os.path.exists(p):
         return []
     return json.load(open(p))
+
+
+def known_match(prop, finding):
+    """is this violation one of the listed open findings? (the file is never written at run time)"""
+    for k in load_known_findings():
+        if k.get("property") != prop or k.get("status") != "open":
+            continue
+        sig = k.get("signature", {})
+        if sig and all(finding.get("sig", {}).get(key) == val for key, val in sig.items()):
+            return k
+    return None
